@@ -167,6 +167,58 @@ func mixedRuns(ops []ledgerops.AbsOp, n int, id int) [][]string {
 	return runs
 }
 
+// sharedRewardRuns: several proposers registered in ONE block with the same reward account (the
+// account check does not see miners created earlier in the same block), then empty blocks whose
+// reward calculation ranges over the proposer map and adds the shares of that account.
+func sharedRewardRuns(n int, id int) [][]string {
+	runs := [][]string{}
+	acct := execdrv.Funded[0]
+	stakes := []uint64{2000, 3000, 5000, 7000}
+	for r := 0; r < n; r++ {
+		st := execdrv.FreshState()
+		warm(st, r, nil)
+		list := []*types.Transaction{}
+		for i, sk := range stakes {
+			mid := sha256.Sum256([]byte(fmt.Sprintf("c01-shared-%d-%d", id, i)))
+			m := types.Miner{Id: mid[:], PublicKey: make([]byte, 128), VrfPublicKey: make([]byte, 32), Type: 1, Stake: sk,
+				Account: common.FromHex(acct)}
+			m.PublicKey[0], m.VrfPublicKey[0] = 1, 1
+			d, _ := json.Marshal(m)
+			list = append(list, execdrv.NewTx(types.TransactionTypeMinerApply, acct, "", string(d), "", uint64(i+1), fmt.Sprintf("c01-sh-%d-%d", id, i)))
+		}
+		ds := []string{}
+		d, _ := digest(execdrv.Execute(st, 1, list))
+		ds = append(ds, d)
+		// the new proposers take part in the reward split from their apply height (block + 300) on
+		for _, h := range []uint64{302, 303} {
+			d, _ := digest(execdrv.Execute(st, h, nil))
+			ds = append(ds, d)
+		}
+		runs = append(runs, ds)
+	}
+	return runs
+}
+
+// castThenVerify: a proposer casts a block whose execution hits the wall-clock cut-off
+// (situation "casting", 3 s); the transaction list it reports, executed by a verifier on a fresh
+// state of the same parent, must give the proposer's state root, receipts and evicted list.
+func castThenVerify(id int) []string {
+	st := execdrv.FreshState()
+	// init code JUMPDEST PUSH1 0 JUMP: burns its whole gas limit
+	loop := "0x5b600056"
+	list := []*types.Transaction{}
+	for i := 0; i < 400; i++ {
+		d, _ := json.Marshal(types.ContractData{GasLimit: "30000000", TransferValue: "0", AbiData: loop})
+		list = append(list, execdrv.NewTx(types.TransactionTypeContract, execdrv.Funded[i%3], "", string(d), "", uint64(i+1), fmt.Sprintf("c01-cast-%d-%d", id, i)))
+	}
+	blk := &types.Block{Header: execdrv.Header(1), Transactions: list}
+	root, evicted, executed, receipts := core.VerifExecuteBlock(st, blk, "casting")
+	dc, _ := digest(&execdrv.Result{Root: root, Evicted: evicted, Executed: executed, Receipts: receipts})
+	st2 := execdrv.FreshState()
+	dv, _ := digest(execdrv.Execute(st2, 1, executed))
+	return []string{dc, dv, fmt.Sprintf("%d", len(executed))}
+}
+
 func main() {
 	out := flag.String("out", "trace.ndjson", "")
 	transfers := flag.String("transfers", "", "TLC transfer inputs (ExecOrder INPUT lines)")
@@ -174,6 +226,8 @@ func main() {
 	nSens := flag.Int("n-sensitive", 64, "runs per order-sensitive transfer input")
 	nPlain := flag.Int("n-plain", 8, "runs per other input")
 	scratch := flag.String("scratch", "", "")
+	shared := flag.Int("shared-reward", 0, "runs of the shared-reward-account input (0: skip)")
+	cast := flag.Bool("cast", false, "run the casting cut-off scenario (takes > 3 s)")
 	flag.Parse()
 	if *scratch == "" {
 		vutil.Fatalf("--scratch required")
@@ -236,6 +290,21 @@ func main() {
 			nIn++
 			nRuns += *nPlain
 		}
+	}
+	if *shared > 0 {
+		runs := sharedRewardRuns(*shared, 7)
+		tr.Emit(map[string]interface{}{"event": "Replicas", "class": "shared-reward-account", "bal": 0, "targets": []target{},
+			"runs": runs, "transferOk": []bool{}})
+		nIn++
+		nRuns += *shared
+	}
+	if *cast {
+		r := castThenVerify(9)
+		// the proposer's outcome and the verifier's outcome of the reported list are two "runs"
+		tr.Emit(map[string]interface{}{"event": "Replicas", "class": "cast-cut-off-then-verify", "bal": 0, "targets": []target{},
+			"runs": [][]string{{r[0]}, {r[1]}}, "executed": r[2], "transferOk": []bool{}})
+		nIn++
+		nRuns += 2
 	}
 	tr.Close()
 	fmt.Printf("c01: inputs=%d runs=%d events=%d\n", nIn, nRuns, tr.N)
